@@ -77,6 +77,7 @@ def derived(ctx, dn):
         made.append(("to_undirected", lambda: G.to_undirected(), False))
         expected["to_undirected"] = lambda: c16.und_model(m, False)
         made.append(("to_undirected(reciprocal)", lambda: G.to_undirected(reciprocal=True), False))
+        expected["to_undirected(reciprocal)"] = lambda: c16.und_model(m, True)
     else:
         made.append(("to_directed", lambda: G.to_directed(), True))
     nodetype = int if fam["nodes"] == "int" else str
